@@ -238,6 +238,9 @@ func c20Judge(c *core.Ctx, k c20case, res *core.ShardResult) (vs []core.Violatio
 			return false
 		}
 		closure := k.closure(req)
+		if len(req) == 0 {
+			closure = k.closure([]string{"default"})
+		}
 		pos := map[string]int{}
 		for i, r := range jr {
 			if _, dup := pos[r.Task]; dup {
@@ -424,7 +427,18 @@ func c20Judge(c *core.Ctx, k c20case, res *core.ShardResult) (vs []core.Violatio
 	// no arguments: the task named default, else the listing
 	_ = os.WriteFile(filepath.Join(sb.Proj, "a.txt"), []byte("edited again"), 0o644)
 	_ = os.RemoveAll(filepath.Join(sb.Proj, ".spok"))
-	invD, logD := run()
+	jsonDefault := k.task("default") != nil && len(k.Tasks)%2 == 0
+	var invD core.Invocation
+	var logD []string
+	if jsonDefault {
+		// the same with --json: the document must list default's closure
+		if !checkJSON(4, nil) {
+			return
+		}
+		res.Count("no_args_with_default_json", 1)
+		_ = os.RemoveAll(filepath.Join(sb.Proj, ".spok"))
+	}
+	invD, logD = run()
 	if crashed(invD) {
 		return
 	}
